@@ -51,13 +51,18 @@ def worker_main(k, args, runs, entry, beat=None):
             f.flush()
             t = time.time()
             # the first runs of a worker pay for JIT compilation: give them a longer cap
-            cap = args.run_cap * (4 if n_done < 3 and args.engine != "twin" else 1)
+            n_warm = 3 * (len(entry) if isinstance(entry, list) else 1)
+            cap = args.run_cap * (4 if n_done < n_warm and args.engine != "twin" else 1)
             n_done += 1
             if beat is not None:
                 beat[2 * k], beat[2 * k + 1] = float(run), t + (cap - args.run_cap)
             try:
                 signal.alarm(int(cap))
-                plan, rec = execute_one(args.check, args.seed, run, args.engine, args.tier, entry)
+                # a worker may own several catalogue entries: it alternates between them
+                # (a pure function of the run index: replays and respawned workers agree)
+                ent = entry[((run - args.first) // max(1, args.workers)) % len(entry)] \
+                    if isinstance(entry, list) else entry
+                plan, rec = execute_one(args.check, args.seed, run, args.engine, args.tier, ent)
                 signal.alarm(0)
                 rec["run"] = run
                 rec["forced_entry"] = plan.get("forced_entry")
@@ -129,7 +134,8 @@ def main(argv=None):
             pass
         args.t0 = time.time()
     W = max(1, args.workers)
-    entries = [int(e) for e in args.entries.split(",") if e != ""]
+    entries = [[int(x) for x in e.split("+")] if "+" in e else int(e)
+               for e in args.entries.split(",") if e != ""]
     all_runs = list(range(args.first, args.first + args.count))
     shards = {k: all_runs[k::W] for k in range(W)}
     shard_entry = {k: (entries[k % len(entries)] if entries else None) for k in range(W)}
